@@ -424,6 +424,9 @@ class Verifier(Dyn):
             for cname in sorted(self.cls_done):
                 if z3.is_true(ev(self.class_pred(cname)(o))):
                     d.setdefault("classes", []).append(cname)
+            for meth, ufn in getattr(self.reg, "obj_uf_methods", {}).items():
+                fn_, argtys, resty = self.reg.ufs[ufn]
+                d.setdefault("methods", {})[meth] = self.pyval(ev(fn_(o)))
             depth = getattr(self, "_objdepth", 0)
             if depth < 3:
                 self._objdepth = depth + 1
@@ -451,7 +454,7 @@ class Verifier(Dyn):
                 "specs": {n: [ps, body] for n, (ps, body) in self.reg.specs.items()},
                 "kind": self.fi.kind, "cls": self.fi.cls, "module": self.fi.module, "name": self.fi.node.name,
                 "params": [a.arg for a in self.fi.node.args.posonlyargs + self.fi.node.args.args] + [a.arg for a in self.fi.node.args.kwonlyargs],
-                "requires": list(c.requires)}
+                "requires": list(c.requires), "class_state": [[k[0], k[1], g] for k, g in getattr(self.reg, "class_state", {}).items()]}
 
     def run(self, timeout_ms=10000):
         """Explore and discharge; returns a JSON-able report for this function."""
